@@ -90,6 +90,7 @@ func check(c Case) vk.Verdict {
 	var doSave bool
 	var seenID, afterID string
 	var stepIDs []string // session id after each script step
+	regenHit := map[int]bool{} // script steps whose "regenfault" met a Delete (which the storage refused)
 	var seenData map[string]string
 	var destroyed bool
 	var handlerErr string
@@ -106,7 +107,10 @@ func check(c Case) vk.Verdict {
 		}
 		destroyed = false
 		stepIDs = stepIDs[:0]
-		for _, s := range script {
+		for k := range regenHit {
+			delete(regenHit, k)
+		}
+		for sj, s := range script {
 			switch s.Op {
 			case "set":
 				sess.Set(s.K, s.V)
@@ -114,6 +118,25 @@ func check(c Case) vk.Verdict {
 				sess.Delete(s.K)
 			case "regen":
 				if err := sess.Regenerate(); err != nil {
+					handlerErr = err.Error()
+				}
+			case "regenfault":
+				// Regenerate while the storage refuses the Delete of the old record
+				regenFaultHit := false
+				if st != nil {
+					_, _, d0 := st.Counts()
+					st.FailNextDelete()
+					err := sess.Regenerate()
+					_, _, d1 := st.Counts()
+					st.FailDelete = nil // (not consumed: a session without a record has nothing to delete)
+					regenFaultHit = d1 > d0
+					regenHit[sj] = regenFaultHit
+					if regenFaultHit && err == nil {
+						handlerErr = "Regenerate() succeeded although the storage refused the Delete of the old record"
+					} else if !regenFaultHit && err != nil {
+						handlerErr = err.Error()
+					}
+				} else if err := sess.Regenerate(); err != nil {
 					handlerErr = err.Error()
 				}
 			case "reset":
@@ -463,6 +486,22 @@ func check(c Case) vk.Verdict {
 				cur[s.K] = s.V
 			case "del":
 				delete(cur, s.K)
+			case "regenfault":
+				if regenHit[j] {
+					// the call failed. Wherever it leaves the session - on its old id (nothing happened) or on a new one -
+					// the session must not be reachable under both: if it moved on, the old record must be gone
+					after := curID
+					if j < len(stepIDs) {
+						after = stepIDs[j]
+					}
+					if after == curID {
+						break
+					}
+					if st != nil && st.Has(curID) {
+						return vk.Failf("%s: step %d: Regenerate() failed (the storage refused the Delete), the session nevertheless moved from id %q to %q and the record of %q is still in the storage: the session exists twice", ctx, j, curID, after, curID)
+					}
+				}
+				fallthrough
 			case "regen", "reset":
 				if model[curID] != nil {
 					delete(model, curID)
@@ -591,7 +630,7 @@ func genCase(t *rapid.T) Case {
 				Save: rapid.IntRange(0, 3).Draw(t, "save") != 0}
 			ns := rapid.IntRange(0, 3).Draw(t, "ns")
 			for j := 0; j < ns; j++ {
-				s := Step{Op: rapid.SampledFrom([]string{"set", "set", "set", "del", "regen", "reset", "destroy", "idle", "save", "save"}).Draw(t, "op"),
+				s := Step{Op: rapid.SampledFrom([]string{"set", "set", "set", "del", "regen", "regenfault", "reset", "destroy", "idle", "save", "save"}).Draw(t, "op"),
 					K: rapid.SampledFrom([]string{"a", "b", "c"}).Draw(t, "k"), V: fmt.Sprintf("v%d_%d", i, j), N: rapid.SampledFrom([]int{1, 3, 30}).Draw(t, "idleN")}
 				op.Script = append(op.Script, s)
 				if s.Op == "destroy" {
